@@ -133,6 +133,27 @@ def run_blocked(case) -> dict:
             with leaf_mgrs[0] as a:
                 with leaf_mgrs[1]:
                     pass
+        elif leaf_style == 9:
+            # blocked inside the exit of the INNER activation of a re-entrant manager that the same frame has entered twice
+            class Re:
+                n = 0
+
+                def __enter__(s):
+                    s.n += 1
+                    return s
+
+                def __exit__(s, *exc):
+                    s.n -= 1
+                    if s.n == 1:
+                        lk.acquire(True, 20)
+                    return False
+
+            r = Re()
+            leaf_mgrs.extend([r, r])
+            exiting_expected.append(r)
+            with r as a:
+                with r as b:
+                    pass
         else:
             # the thread drives a coroutine that is blocked while running inside an __aexit__
             class AOdd:
@@ -316,7 +337,7 @@ class C07(PropCheck):
             "points (up to 14) x target progress 1..4, plus 30 (quick) / 300 (thorough) random pairs and triples, all in a "
             "subprocess; stress: 2 s (quick) / 20 s (thorough) with switch interval 1e-6; non-trivial = the target moved")
     manifest = {
-        "text": "Lean (M-J, retry count generated from the source): C07_blocked (a target that takes no step: the first attempt is accepted and the snapshot is exactly its stack at its one position), C07_position_consistent (an accepted snapshot saw the same f_lasti at the start, before every slot read and at the end — else it is rejected and retried), C07_snapshot_partial (under NoABA the snapshot is the target's stack at one state), C07_aba_witness (without NoABA an accepted snapshot can mix two visits of the same position), C07_stale_read_witness (the window between the check and the slot read: known finding F11), C07_bounded_retries (at most snapshotRetries attempts, then the error: no hang), C07_not_alive / C07_finished / C07_ident (unwrap_thread returns nothing unless the thread was alive before and after the lookup; alive-before and alive-after imply alive at the lookup, so the ident was not re-used). Tie: real inspect_frame under a deterministic line-hook schedule vs the model on the recorded trace; extract(thread) on blocked, unstarted, finished and racing threads judged by the oracle.",
+        "text": "Lean (M-J, retry count generated from the source): C07_blocked (a target that takes no step: the first attempt is accepted and the snapshot is exactly its stack at its one position), C07_position_consistent (an accepted snapshot saw the same f_lasti at the start, before every slot read and at the end — else it is rejected and retried), C07_snapshot_partial (under NoABA the snapshot is the target's stack at one state), C07_aba_witness (without NoABA an accepted snapshot can mix two visits of the same position), C07_stale_read_witness (the window between the check and the slot read: known finding F11), C07_bounded_retries (at most snapshotRetries attempts, then the error: no hang), C07_not_alive / C07_finished / C07_ident, C07_shortcut_source / C07_finished_full / C07_calling_thread / C07_F60_old_code_witness (the calling-thread test, re-read from the source, needs the thread to be alive: a finished thread yields nothing even for a caller that has since been given its ident; with the ident alone deciding it got the caller's stack) (unwrap_thread returns nothing unless the thread was alive before and after the lookup; alive-before and alive-after imply alive at the lookup, so the ident was not re-used). Tie: real inspect_frame under a deterministic line-hook schedule vs the model on the recorded trace; extract(thread) on blocked, unstarted, finished and racing threads judged by the oracle.",
         "note": "Partial: 'never crashes the interpreter' is false on the real code (F11: a slot read can return an object freed after the preceding check; the subsequent crash is CPython allocator behaviour outside any model). The exploration keeps every object the target ever puts on its stack alive, so it exercises the window without the crash; the F11 witness runs in its own subprocess.",
     }
     assumptions = ["single attribute reads (frame.f_lasti, a ctypes slot read) are atomic under the GIL",
@@ -326,9 +347,11 @@ class C07(PropCheck):
         out = []
         for depth in range(0, 7 if tier == "thorough" else 5):
             for _ in range(2 if tier == "quick" else 6):
-                out.append({"k": "blocked", "depth": depth, "nest": [rng.randint(0, 3) for _ in range(depth + 1)], "leaf": len(out) % 9})
+                out.append({"k": "blocked", "depth": depth, "nest": [rng.randint(0, 3) for _ in range(depth + 1)], "leaf": len(out) % 10})
                 if len(out) % 4 == 1:
                     out.append(dict(out[-1], during_detection=True, nest=[max(1, x) for x in out[-1]["nest"]]))
+        for style in range(10):          # every way of being blocked, at least once whatever the seed
+            out.append({"k": "blocked", "depth": 1, "nest": [rng.randint(0, 2), rng.randint(0, 2)], "leaf": style})
         scheds: List[dict] = [{}]
         for r in range(0, 14):
             for a in range(1, 5):
